@@ -5,7 +5,8 @@ CONSTANTS
   MaxT = 2
   Variant = "ok"
   Dense = TRUE
+  Basis = "all"
+  Singles = "none"
 INVARIANT TypeOK
 INVARIANT TileInv
-INVARIANT BigIsQuasiPeriodic
 CHECK_DEADLOCK FALSE
